@@ -1,5 +1,6 @@
 import re, glob, os
 TYPES = {}
+VARIANTS = {}
 def load_structs(roots):
     out = {}
     enums = {}
@@ -31,6 +32,25 @@ def load_structs(roots):
                     if fm: names.append(fm.group(3)); tys.append(' '.join(fm.group(4).split()))
                 if name not in out:
                     out[name] = names; TYPES[name] = tys
+            for m in re.finditer(r'\benum\s+(\w+)\s*(<[^>{]*>)?\s*\{', src):
+                name = m.group(1); i = m.end(); depth = 1; j = i
+                while depth and j < len(src):
+                    if src[j] == '{': depth += 1
+                    elif src[j] == '}': depth -= 1
+                    j += 1
+                body = re.sub(r'#\[[^\]]*\]', '', src[i:j-1])
+                parts = []; d = 0; cur = ''
+                for ch in body:
+                    if ch in '<([{': d += 1
+                    elif ch in '>)]}': d -= 1
+                    if ch == ',' and d == 0: parts.append(cur); cur = ''
+                    else: cur += ch
+                parts.append(cur)
+                vs = []
+                for part in parts:
+                    vm = re.match(r'\s*(\w+)', part)
+                    if vm: vs.append(vm.group(1))
+                if vs: VARIANTS.setdefault(name, vs)
             for m in re.finditer(r'\benum\s+(\w+)\s*\{([^{}]*)\}', src):
                 body = re.sub(r'#\[[^\]]*\]', '', m.group(2))
                 vs = []
